@@ -81,9 +81,10 @@ impl<'a> ZoneSelector for FieldSelector<'a> {
                 IndexStrategy::EnumBitmap { .. } => {
                     if let Some(z) = self.enum_pruner.apply(&args) {
                         candidate_zones = z;
-                    } else if matches!(operation, Some(CompareOp::Neq)) {
+                    } else if !matches!(operation, Some(CompareOp::Eq)) {
                         // `field != "x"` with a variant the bitmap does not know matches every
-                        // row: no zone may be ruled out.
+                        // row, and the bitmap does not answer >, >=, <, <= at all: no zone may
+                        // be ruled out (the row filter decides).
                         candidate_zones =
                             collect_zones_for_scope(self.qplan, self.caches, segment_id, Some(uid));
                     } else {
